@@ -3,6 +3,7 @@ package props
 import (
 	"go/token"
 	"go/types"
+	"strings"
 
 	"golang.org/x/tools/go/ssa"
 
@@ -143,4 +144,75 @@ func entryLocks(p *load.Program) map[*ssa.Function]map[string]bool {
 	m := kit.EntryLocks(pkgFuncs(p, R, H))
 	entryLocksCache[p] = m
 	return m
+}
+
+// checkNoReacquire reports calls made while a non-reentrant lock is held (on every path) to a
+// callee of the two packages that may take the same lock of the same object: the goroutine blocks
+// for ever with the lock held. keep selects the callers to report on (nil: all).
+func checkNoReacquire(p *load.Program, r *kit.Report, rule string, keep func(f *ssa.Function) bool) {
+	funcs := pkgFuncs(p, R, H)
+	reps, sites := kit.SelfReacquire(funcs, entryLocks(p))
+	k := newKeyer()
+	n := 0
+	bad := map[*ssa.Function]bool{}
+	for _, rep := range reps {
+		if keep != nil && !keep(rep.Caller) {
+			continue
+		}
+		bad[rep.Caller] = true
+		r.Bad(rule, k.key(kit.ShortID(kit.FuncID(rep.Caller))+"/call:"+kit.ShortID(kit.FuncID(rep.Callee))+" holding "+rep.Key), posOf(p, rep.Call),
+			"%s is held here (on every path) and the callee takes it again (%s): sync mutexes are not reentrant, the goroutine blocks for ever with the lock held", rep.Key, strings.Join(rep.Via, " → "))
+	}
+	for _, f := range funcs {
+		if keep != nil && !keep(f) {
+			continue
+		}
+		if bad[f] || f.Blocks == nil {
+			continue
+		}
+		locks := len(entryLocks(p)[f]) > 0
+		lin := kit.NewLin(f)
+		kit.AllInstrs(f, func(in ssa.Instruction) {
+			if c, ok := in.(ssa.CallInstruction); ok {
+				if _, _, op := kit.LockOp(lin, c); op > 0 {
+					locks = true
+				}
+			}
+		})
+		if locks {
+			n++
+			r.OK(rule, kit.ShortID(kit.FuncID(f))+"/calls-under-lock", posOf(p, f.Blocks[0].Instrs[0]), "no callee re-takes a lock held at its call")
+		}
+	}
+	_ = n
+	r.CallSites += sites
+}
+
+// staticReach: the functions of the two packages reachable from roots through statically resolved
+// calls (roots included).
+func staticReach(roots ...*ssa.Function) map[*ssa.Function]bool {
+	seen := map[*ssa.Function]bool{}
+	var walk func(f *ssa.Function)
+	walk = func(f *ssa.Function) {
+		if f == nil || seen[f] || f.Blocks == nil {
+			return
+		}
+		seen[f] = true
+		kit.AllInstrs(f, func(in ssa.Instruction) {
+			if c, ok := in.(ssa.CallInstruction); ok {
+				if g := kit.StaticCallee(c); g != nil && g.Pkg != nil && (g.Pkg.Pkg.Path() == R || g.Pkg.Pkg.Path() == H) {
+					walk(g)
+				}
+			}
+			if mc, ok := in.(*ssa.MakeClosure); ok {
+				if g, ok := mc.Fn.(*ssa.Function); ok {
+					walk(g)
+				}
+			}
+		})
+	}
+	for _, f := range roots {
+		walk(f)
+	}
+	return seen
 }
